@@ -70,6 +70,15 @@ def check_chain(rep, prog, rid, what, start_body, start, hops, sink=None, conseq
                             hit = len(flds) == 1 and nm == cur.local_name(param)
                     elif param is None and src_pred is not None:
                         hit = src_pred(df.canon(tr, b))
+                        if not hit and b.is_closure:
+                            # the value was computed in the parent and captured by the closure
+                            t0 = df.strip(tr)
+                            flds = [x for x in t0[2] if x != "*"] if t0[0] == "path" and t0[1] == ("env",) else []
+                            if len(flds) == 1:
+                                nm = flds[0][len("_ref__"):] if flds[0].startswith("_ref__") else flds[0]
+                                idx = [j for j, l_ in enumerate(cur.locals) if l_.get("name") == nm]
+                                if len(idx) == 1:
+                                    hit = src_pred(df.canon(pv.local_tree(idx[0]), cur))
                     if hit:
                         nxt = (callee, i + 1, fc.where(b, t["sp"][1]))
                 if nxt is None:
